@@ -6,6 +6,7 @@ package main
 import (
 	"encoding/binary"
 	"fmt"
+	"strings"
 )
 
 const c09MaxUDP = 65507
@@ -601,6 +602,47 @@ func costFamilies() []costFamily {
 	for _, it := range items {
 		it := it
 		fs = append(fs, c09Fam(it.name, it.entry, func(n int) []byte { return c09Repeated(n, it.head, it.item) }))
+	}
+	// two codes INSIDE one container: minimal options of an unknown code first, then
+	// (or alternating with) many instances of a code the container knows (seeded change
+	// C09-17: every further non-map rule of a 4RD option copied all its siblings)
+	inside := []struct {
+		name  string
+		entry string
+		head  []byte
+		item  []byte
+	}{
+		{"4rd-150-then-nonmap", "opt:97", nil, c09Tlv6(99, []byte{0, 0, 5, 0})},
+		{"4rd-150-then-maprule", "opt:97", nil, c09Tlv6(98, []byte{32, 48, 10, 0, 0, 0, 0x20, 0x01, 0x0d, 0xb8, 0, 0})},
+		{"iana-150-then-addr", "opt:3", c09LvIANA.fixed, c09Tlv6(5, c09LvIAAddr.fixed)},
+		{"iana-150-then-status", "opt:3", c09LvIANA.fixed, c09Tlv6(13, []byte{0, 0})},
+		{"iata-150-then-addr", "opt:4", c09LvIATA.fixed, c09Tlv6(5, c09LvIAAddr.fixed)},
+		{"iapd-150-then-prefix", "opt:25", c09LvIAPD.fixed, c09Tlv6(26, c09LvIAPrefix.fixed)},
+		{"iapd-150-then-status", "opt:25", c09LvIAPD.fixed, c09Tlv6(13, []byte{0, 0})},
+	}
+	for _, it := range inside {
+		it := it
+		for _, inter := range []bool{false, true} {
+			inter := inter
+			name := it.name
+			if inter {
+				name = strings.Replace(name, "-then-", "-and-", 1)
+			}
+			fs = append(fs, c09Fam(name, it.entry, func(n int) []byte {
+				out := append([]byte{}, it.head...)
+				for len(out)+4+len(it.item) <= n {
+					switch {
+					case inter:
+						out = append(append(out, 0, 150, 0, 0), it.item...)
+					case len(out) < n*3/5:
+						out = append(out, 0, 150, 0, 0)
+					default:
+						out = append(out, it.item...)
+					}
+				}
+				return out
+			}))
+		}
 	}
 	fs = append(fs, c09Fam("4rd-chain", "opt:97", func(n int) []byte { return c09NestChain(n, nil, []c09NestLevel{c09Lv4RD}, nil, 0) }))
 	fs = append(fs, c09Fam("iata-chain", "opt:4", func(n int) []byte { return c09NestChain(n, c09LvIATA.fixed, []c09NestLevel{c09LvIATA}, nil, 0) }))
